@@ -241,7 +241,12 @@ class Ctx:
             base = self.eval(e["base"], fl, env, depth + 1) if e.get("base") else {f: TOPV for f in self.fields}
             out = dict(base)
             for fe in e["fields"]:
-                out[fe["name"]] = self._bool(fe["e"])
+                v = peel(fe["e"])
+                if isinstance(v, dict) and v.get("k") == "Field" and v["name"] in self.fields and ty_is(v.get("base_ty", ""), TCM + "TypeCtx"):
+                    # `inside_pure: self.inside_pure`: the field of another context value
+                    out[fe["name"]] = self.eval(v["e"], fl, env, depth + 1)[v["name"]]
+                else:
+                    out[fe["name"]] = self._bool(fe["e"])
             return out
         if k in ("MethodCall", "Call"):
             c = callee(e)
